@@ -26,7 +26,7 @@ picked, fam = [], {}
 for c in cases:
     k = fam.get(c.origin, 0)
     fam[c.origin] = k + 1
-    if c.origin in ("corpus", "nest2") or (c.origin == "random" and k < n_random) or (c.origin != "random" and k % 3 == 0):
+    if c.origin in ("corpus", "nest2", "byname-missing", "spelling", "left-ref", "ordered-operand") or (c.origin == "random" and k < n_random) or (c.origin != "random" and k % 3 == 0):
         picked.append(c)
 # programs PySpark must refuse (the spec answers None): width mismatch, unionByName with other names
 tabs = c07.FIXED
